@@ -1,9 +1,10 @@
 (** Pins/C06.v — the statements of the C06 theorems, pinned. *)
-From PdfV Require Import Base.Prelude Gen.Generated Crypt.Rc4 Crypt.Rc4Proofs Crypt.Model Crypt.Spec Crypt.Tables Crypt.Proofs Crypt.KdfProofs Crypt.Proofs56 Crypt.SafeProofs Properties.C06.
+From PdfV Require Import Base.Prelude Gen.Generated Crypt.Rc4 Crypt.Rc4Proofs Crypt.Rc4Spec Crypt.Model Crypt.Spec Crypt.Tables Crypt.Proofs Crypt.KdfProofs Crypt.Proofs56 Crypt.SafeProofs Properties.C06.
 
 Check C06_rc4_involution : forall k m, 1 <= lenN k <= 256 ->
   exists c, rc4 k m = Ok c /\ rc4 k c = Ok m /\ length c = length m.
 Check C06_rc4_bad_key : forall k m, lenN k = 0 \/ 256 < lenN k -> rc4 k m = Panic 601.
+Check C06_rc4_is_rc4 : forall k m, 1 <= lenN k <= 256 -> rc4 k m = Ok (rc4_spec k m).
 Check C06_pkcs7 : forall m, pkcs7_unpad (pkcs7_pad m) = Some m.
 Check C06_tables : PADDING = spec_pad /\ crypt_salt = salt_tag /\
   crypt_constants = [1; 19; 3; 50; 4; 32; 16;  16; 3; 50; 2; 1; 20;  1; 40; 2; 8; 4; 6; 5; 2; 6;  4; 48; 48; 127; 64; 32; 64; 16;
